@@ -355,6 +355,8 @@ class Translator:
                 if isinstance(n, ast.Call) and isinstance(n.func, ast.Attribute) and \
                         n.func.attr in ('up', 'down', 'save_applied_number'):
                     out.add('__w')               # an effect on the world the method acts on
+                if Translator._is_store_call(n):
+                    out.add('__w')
         return out
 
     @staticmethod
@@ -368,6 +370,55 @@ class Translator:
             return any(walk(c) for c in ast.iter_child_nodes(n))
         return any(walk(st) for st in stmts)
 
+    @staticmethod
+    def _is_store_call(n):
+        """self.storage.<meth>(...) / self.cache.<meth>(...)"""
+        return isinstance(n, ast.Call) and isinstance(n.func, ast.Attribute) and isinstance(n.func.value, ast.Attribute) and \
+            isinstance(n.func.value.value, ast.Name) and n.func.value.value.id == 'self' and \
+            n.func.value.attr in ('storage', 'cache')
+
+    def _hoist_store_call(self, s, rest, env, cname, end, brk):
+        """the first call of one of the two storages in the statement's own expression (not in a nested block) is an effect
+        on the world: it is performed first (it is the first thing the statement evaluates - its arguments are names,
+        attributes of self or constants), its result bound to a fresh name, and the statement goes on with that name in its place"""
+        import copy
+        if isinstance(s, (ast.Assign, ast.Expr, ast.Return)):
+            own = s.value
+        elif isinstance(s, ast.If):
+            own = s.test
+        elif isinstance(s, ast.For):
+            own = s.iter
+        else:
+            own = None
+        if own is None:
+            return None
+        calls = [n for n in ast.walk(own) if self._is_store_call(n)]
+        if not calls:
+            return None
+        node = calls[0]
+        if node.keywords or any(not isinstance(a, (ast.Name, ast.Constant, ast.Attribute)) for a in node.args):
+            raise Untranslatable('storage call with star / keyword / computed arguments')
+        self.fresh += 1
+        r, w, tmp = 'r%d' % self.fresh, 'w%d' % self.fresh, '__r%d' % self.fresh
+        args = [self.expr(a, env, cname) for a in node.args]
+        node._hoist = True
+        s2 = copy.deepcopy(s)
+        del node._hoist
+
+        class Repl(ast.NodeTransformer):
+            def visit_Call(self_, n):
+                if getattr(n, '_hoist', False):
+                    return ast.Name(id=tmp, ctx=ast.Load())
+                return self_.generic_visit(n)
+        s2 = Repl().visit(s2)
+        env2 = dict(env)
+        env2[tmp] = '(pure %s)' % r
+        env2['__w'] = '(pure %s)' % w
+        nxt = rest if (isinstance(s, ast.Expr) and s.value is node) else [s2] + rest
+        return '(stCallM "%s" "%s" [%s] %s fun %s %s =>\n      %s)' % (
+            node.func.value.attr, node.func.attr, ', '.join(args), env['__w'], r, w,
+            self.block(nxt, env2, cname, end, brk))
+
     def block(self, stmts, env, cname, end='cNone', brk=None):
         """`end`: what happens when the block is left at its end (the function: return None; a loop body: go on with the
         next iteration) - a Lean term, or a function of the environment at that point when the loop carries variables;
@@ -377,6 +428,10 @@ class Translator:
         if not stmts:
             return endf(env)
         s, rest = stmts[0], stmts[1:]
+        if getattr(self, 'effect_mode', None) == 'store':
+            hoisted = self._hoist_store_call(s, rest, env, cname, end, brk)
+            if hoisted is not None:
+                return hoisted
         if isinstance(s, ast.Continue):
             if end == 'cNone':
                 raise Untranslatable('continue outside a loop')
@@ -462,6 +517,9 @@ class Translator:
                 return '(catchAllM %s\n      %s)' % (self.block(body, env, cname, end, brk),
                                                      self.block(h.body, env, cname, end, brk))
             raise Untranslatable('try / except ' + h.type.id)
+        if isinstance(s, ast.Return) and getattr(self, 'effect_mode', None) == 'store':
+            # a method that acts on a world returns its value together with the world
+            return '(pairM %s %s)' % (self.expr(s.value, env, cname) if s.value is not None else 'cNone', env['__w'])
         if isinstance(s, ast.Return):
             return self.expr(s.value, env, cname) if s.value is not None else 'cNone'
         if isinstance(s, ast.Raise):
@@ -720,6 +778,40 @@ def translate_migration(repo):
     return '\n'.join(out) + '\n', [('migration', c, []) for c in done], [('migration', c, r) for c, r in failed]
 
 
+ENFOLD_METHODS = ['add', 'update', 'delete', 'get', 'get_all', 'populate']
+
+
+def translate_enfold(repo):
+    out = ['import Model.PyPrim', '/-! GENERATED by harness/pytolean.py from vakt/cache.py (class EnfoldCache) - do not edit -/',
+           'set_option linter.unusedVariables false', 'namespace Vakt.GenEnfold', 'open Vakt Vakt.PyPrim', '']
+    done, failed = [], []
+    tr = Translator(ast.parse(open(os.path.join(repo, 'vakt', 'cache.py')).read()))
+    tr.effect_mode = 'store'
+    for m in ENFOLD_METHODS:
+        try:
+            f = tr.method('EnfoldCache', m)
+            params = [a.arg for a in f.args.args]
+            if f.args.vararg or f.args.kwarg:
+                raise Untranslatable('star parameters')
+            tr.attrs, tr.fresh = set(), 0
+            env = {p: '(pure p_%s)' % p for p in params}
+            env['__w'] = '(pure p_w)'
+            body = tr.block(f.body, env, 'EnfoldCache', end=lambda e: '(pairM cNone %s)' % e['__w'])
+            extra = ''.join(' self_%s' % a for a in sorted(tr.attrs))
+            out.append('/-- `vakt.cache.EnfoldCache.%s` (the calls of the two storages made explicit as effects on a world: the last '
+                       'parameter is the world, the result the returned value with the world) -/' % m)
+            out.append('def %s_EnfoldCache (%s%s p_w : V) : M :=\n    %s\n' % (m, ' '.join('p_%s' % p for p in params), extra, body))
+            done.append((m, sorted(tr.attrs)))
+        except Untranslatable as e:
+            failed.append((m, str(e)))
+    out.append('def translatedEnfold : List String := [%s]' % ', '.join('"%s"' % c for c, _ in done))
+    out.append('def untranslatedEnfold : List (String × String) := [%s]' % ', '.join(
+        '("%s", "%s")' % (c, r.replace('"', "'")) for c, r in failed))
+    out.append('')
+    out.append('end Vakt.GenEnfold')
+    return '\n'.join(out) + '\n', [('enfold', c, a) for c, a in done], [('enfold', c, r) for c, r in failed]
+
+
 GUARD_METHODS = ['check_context_restriction', 'check_policies_allow', 'is_allowed_check']
 
 
@@ -810,7 +902,16 @@ def regenerate(repo, lean_dir):
                  % str(e).replace('-/', '- /')[:300])
         mtr, mun = [], [('migration', '*', str(e))]
     changed = _write(os.path.join(lean_dir, 'Gen', 'Migration.lean'), mtext) or changed
-    return changed, translated + ctr + gtr + ptr + otr + mtr, untranslated + cun + gun + pun + oun + mun
+    try:
+        etext, etr, eun = translate_enfold(repo)
+    except Exception as e:
+        etext = ('import Model.PyPrim\n/-! GENERATED by harness/pytolean.py: translation failed: %s -/\n'
+                 'namespace Vakt.GenEnfold\ndef translatedEnfold : List String := []\n'
+                 'def untranslatedEnfold : List (String × String) := []\nend Vakt.GenEnfold\n'
+                 % str(e).replace('-/', '- /')[:300])
+        etr, eun = [], [('enfold', '*', str(e))]
+    changed = _write(os.path.join(lean_dir, 'Gen', 'Enfold.lean'), etext) or changed
+    return changed, translated + ctr + gtr + ptr + otr + mtr + etr, untranslated + cun + gun + pun + oun + mun + eun
 
 
 if __name__ == '__main__':
@@ -826,5 +927,7 @@ if __name__ == '__main__':
         text, tr, un = translate_policy(repo)
     if '--migration' in sys.argv:
         text, tr, un = translate_migration(repo)
+    if '--enfold' in sys.argv:
+        text, tr, un = translate_enfold(repo)
     sys.stdout.write(text)
     sys.stderr.write('translated %d, untranslated %d: %r\n' % (len(tr), len(un), un))
